@@ -22,6 +22,7 @@ addresses that do not begin with '/'; tuples (MIDI), doubles and the T/F/N
 tags of the low-level builder; time tags of the clumps (C07); empty clumps.
 """
 import hashlib
+import json
 import itertools
 import math
 import multiprocessing
@@ -122,7 +123,7 @@ def fail(obligation, key, what, case, observed=None, expected=None, func='msg'):
     e = enc(case)
     return {'obligation': obligation, 'key': key, 'what': what, 'input': e,
             'observed': observed, 'expected': expected,
-            'replay': {'func': func, 'args': e}, 'size': len(repr(e))}
+            'replay': {'func': func, 'args': json.dumps(e)}, 'size': len(repr(e))}
 
 
 # ------------------------------------------------------- input classification --
@@ -1100,7 +1101,7 @@ def run_straddle(rep):
             fs = check_message(dec(msg))
             for f in fs:
                 f['input'] = msg
-                f['replay'] = {'func': 'msg', 'args': msg}
+                f['replay'] = {'func': 'msg', 'args': json.dumps(msg)}
                 f['size'] = len(repr(msg))
             fails += fs
     # bundles whose real size straddles the limit
@@ -1115,7 +1116,7 @@ def run_straddle(rep):
         fs = check_bundle(b)
         for f in fs:
             f['input'] = spec
-            f['replay'] = {'func': 'bundle_groups', 'args': spec}
+            f['replay'] = {'func': 'bundle_groups', 'args': json.dumps(spec)}
             f['size'] = len(repr(spec))
         fails += fs
     rep.bounded(
@@ -1531,7 +1532,10 @@ def replay(case, rep):
     fn = FUNCS.get(r.get('func'))
     if fn is None:
         return None
-    fails = fn(r.get('args'))
+    args = r.get('args')
+    if isinstance(args, str):          # deep cases are stored as JSON text
+        args = json.loads(args)
+    fails = fn(args)
     want = case.get('key')
     hit = [f for f in fails if want is None or f['key'] == want] or fails
     report_all(rep, hit)
